@@ -40,8 +40,8 @@ ASSUMPTIONS = [
 ]
 PARTIAL = []
 MANIFEST = dict(
-    text='Proof: Lean theorems over all shapes/ranks for the mirrored index functions of reshape(-1 inference)/flatten/transpose/swapaxes/moveaxis/expand_dims/squeeze/atleast_nd/flip (NumPy shape, NumPy element map, C order kept, permutation of the source, transpose-inverse and flip-flip identities, in-bounds), tied to the headers by an exhaustive small-scope differential run (shape AND elements) that is also compared with real NumPy.',
-    note='Lean kernel + propext/Classical.choice/Quot.sound; model hand-written, fidelity rests on the correspondence run; flip modelled directly rather than through the slice machinery; known findings: results of rank 0 are refused by shape_reshape, negative flip axes are ignored.',
+    text='Proof: 30 Lean theorems, each for every rank/extent/argument: reshape (accepted shape, one inferred -1 at any position, C order kept, in bounds), flatten, transpose (NumPy shape and element equations for every permutation incl. negative spellings and the default; transpose then inverse = identity), swapaxes and moveaxis (the mirrored argsort/insertion loop yields NumPy\'s axis order for any duplicate-free source/destination lists), expand_dims (any duplicate-free axis tuple), squeeze, atleast_nd, flip (element equations on non-negative axes, flip twice = identity), and for every op: result is a permutation of the source elements (identity permutation for the reshape family). Tied to the headers by an exhaustive small-scope differential run comparing shape AND every element of the lazy view and of the eager array:: function, also against real NumPy.',
+    note='Lean kernel + propext/Classical.choice/Quot.sound; model hand-written, fidelity rests on the correspondence run; flip is modelled directly (i -> n-1-i), not through the slice machinery; results of rank 0 (reshape to (), squeeze of all-ones, ...) and negative flip axes violate the property on the unchanged tree and are listed as known findings with Lean counterexample theorems; only dynamic (std::vector) shape/axes kinds are run here.',
     technique='Lean 4 induction proofs over List Nat shapes + differential correspondence (exhaustive small scope) + NumPy oracle')
 
 
